@@ -51,7 +51,13 @@ def gen_case(shape, rng):
         wts[i] = [0.0] * shape[i]           # a zero-mass factor
     pos = [[rng.choice([float(rng.randint(-4, 6)), rng.uniform(-4, 6)]) for _ in range(n)] for n in shape]
     N = math.prod(shape)
-    return dict(shape=list(shape), wts=wts, pos=pos, values=[rng.uniform(-10, 10) for _ in range(N)],
+    off = 0.0
+    if random.Random(repr((shape, wts[0]))).random() < 0.12:
+        # positions of magnitude 1e6 with a spread of order one (own generator): the statistics are sums of small
+        # deviations from a large mean
+        off = 1e6
+        pos = [[off + float(round(v * 8) / 8) for v in row] for row in pos]
+    return dict(shape=list(shape), wts=wts, pos=pos, offset=off, values=[rng.uniform(-10, 10) for _ in range(N)],
                 new=[rng.uniform(0.1, 5) for _ in range(2 * sum(shape))], newvals=[rng.uniform(20, 30) for _ in range(rng.randint(0, N))],
                 prefix=rng.randint(1, len(shape)), q=[rng.uniform(-2, 2) for _ in range(4)],
                 targets=[rng.choice([0.5, -2.0, 3.25]), rng.choice([0.5, 2.0, 7.0]), rng.choice([0.25, 1.0, 4.5])])
@@ -117,8 +123,12 @@ def check(c):
     add('update', 'scenario-values', u.wts == nw and u.pos == nx and list(u.values) == nv + vals[len(nv):] and
         list(sc.values) == vals, 'values %r + update tail %r -> %r' % (vals, nv, u.values))
     # ---- statistics as explicit sums over the weighted points
-    q = c['q']
+    q = c['q'] if not c.get('offset') else [1.0, 0.0, 0.0, 0.0]
     f = lambda x: q[0] * x[0] + q[1] * x[-1] ** 2 + q[2] * len(x) + q[3]      # noqa: E731
+    big = bool(c.get('offset'))
+    closev = (lambda a, b: feq(a, b, 1e-6, 1e-9)) if big else close            # noqa: E731
+    # a value moved from ~1e6 to a target of order one carries the rounding of the 1e6-sized operands (1e6 * 2**-52 per op)
+    closem = (lambda a, b: abs(float(a) - float(b)) <= 1e-8) if big else close  # noqa: E731
     tot = math.fsum(Wt)
     sup, sidx = call('stats', pm.support), call('stats', pm.support_index)
     add('stats', 'support', sup == [x for x, w in pts if w > 0] and sidx == [i for i, w in enumerate(Wt) if w > 0],
@@ -132,7 +142,7 @@ def check(c):
         v = math.fsum(w * (f(x) - e) ** 2 for x, w in pts) / tot
         ge, gv = call('stats', pm.expect, f), call('stats', pm.expect_var, f)
         add('stats', 'expect', close(ge, e), 'expect %r, explicit sum %r' % (ge, e))
-        add('stats', 'expect_var', close(gv, v), 'expect_var %r, explicit sum %r' % (gv, v))
+        add('stats', 'expect_var', closev(gv, v), 'expect_var %r, explicit sum %r' % (gv, v))
     # ---- measure-level setters
     tm, tr, tv = c['targets']
     for i, (w, x) in enumerate(zip(wts, pos)):
@@ -141,24 +151,24 @@ def check(c):
         mean = lambda m: math.fsum(a * b for a, b in zip(m.positions, w)) / math.fsum(w)       # noqa: E731
         m = copy.deepcopy(pm[i])
         call('setters', setattr, m, 'center_mass', tm)
-        add('setters', 'center_mass', close(mean(m), tm) and m.weights == w, 'factor %d: mean %r after center_mass=%r' % (i, mean(m), tm))
+        add('setters', 'center_mass', closem(mean(m), tm) and m.weights == w, 'factor %d: mean %r after center_mass=%r' % (i, mean(m), tm))
         if max(x) - min(x) > 1e-3:
             m = copy.deepcopy(pm[i])
             call('setters', setattr, m, 'range', tr)
-            add('setters', 'range', close(max(m.positions) - min(m.positions), tr), 'factor %d: range %r after range=%r'
+            add('setters', 'range', closem(max(m.positions) - min(m.positions), tr), 'factor %d: range %r after range=%r'
                 % (i, max(m.positions) - min(m.positions), tr))
         m0 = math.fsum(a * b for a, b in zip(x, w)) / math.fsum(w)
         if math.fsum(b * (a - m0) ** 2 for a, b in zip(x, w)) / math.fsum(w) > 1e-6:
             m = copy.deepcopy(pm[i])
             call('setters', setattr, m, 'var', tv)
             got = math.fsum(b * (a - mean(m)) ** 2 for a, b in zip(m.positions, w)) / math.fsum(w)
-            add('setters', 'var', close(got, tv), 'factor %d: variance %r after var=%r' % (i, got, tv))
+            add('setters', 'var', closev(got, tv), 'factor %d: variance %r after var=%r' % (i, got, tv))
     if all(math.fsum(w) > 0 for w in wts):
         u = copy.deepcopy(pm)
         tgt = [tm + i for i in range(len(shape))]
         call('setters', setattr, u, 'center_mass', tgt)
         got = [math.fsum(a * b for a, b in zip(u.pos[i], wts[i])) / math.fsum(wts[i]) for i in range(len(shape))]
-        add('setters', 'product.center_mass', all(close(g, t) for g, t in zip(got, tgt)) and u.wts == wts,
+        add('setters', 'product.center_mass', all(closem(g, t) for g, t in zip(got, tgt)) and u.wts == wts,
             'center masses %r after center_mass=%r' % (got, tgt))
     return bad, degenerate
 
